@@ -70,6 +70,26 @@ fn rnd_num_list(rng: &mut Rng, max: u64) -> J {
   json!({"k": "list", "items": (0..n).map(|_| if rng.chance(1, 15) { json!({"k": "null"}) } else { rnd_num(rng) }).collect::<Vec<_>>()})
 }
 
+/// Items for stddev: a base of 1 to 30 digits and small offsets from it (close together or not), sometimes negative,
+/// sometimes scaled.
+fn rnd_stddev_list(rng: &mut Rng) -> J {
+  let nd = 1 + rng.below(30) as usize;
+  let base: Vec<u8> = (0..nd).map(|i| if i == 0 { 1 + rng.below(9) as u8 } else { rng.below(10) as u8 }).collect();
+  let e = rng.below(9) as i64 - 4;
+  let neg = rng.chance(1, 5);
+  let n = 2 + rng.below(6) as usize;
+  let items: Vec<J> = (0..n)
+    .map(|_| {
+      // base * 10^k + offset, written as digits
+      let off = rng.below(1000) as u32;
+      let mut d = base.clone();
+      d.extend_from_slice(&[(off / 100) as u8, (off / 10 % 10) as u8, (off % 10) as u8]);
+      json!({"k": "num", "s": if neg { 1 } else { 0 }, "c": d, "e": e})
+    })
+    .collect();
+  json!({"k": "list", "items": items})
+}
+
 fn rnd_pos(rng: &mut Rng) -> J {
   json!({"k": "num", "m": rng.below(23) as i64 - 11, "e": 0})
 }
@@ -77,7 +97,7 @@ fn rnd_pos(rng: &mut Rng) -> J {
 pub fn random_case(rng: &mut Rng) -> J {
   let f = *rng.pick(&[
     "substring", "substring", "string length", "contains", "starts with", "ends with", "substring before", "substring after", "count", "min", "max", "sum", "mean", "median", "mode", "all", "sublist", "sublist",
-    "append", "concatenate", "insert before", "remove", "reverse", "index of", "union", "distinct values", "flatten", "list contains", "sort", "not",
+    "append", "concatenate", "insert before", "remove", "reverse", "index of", "union", "distinct values", "flatten", "list contains", "sort", "not", "stddev",
   ]);
   let args: Vec<J> = match f {
     "substring" => {
@@ -103,6 +123,13 @@ pub fn random_case(rng: &mut Rng) -> J {
     }
     "count" | "reverse" | "flatten" | "distinct values" => vec![rnd_list(rng, 8, 0)],
     "min" | "max" | "sum" | "mean" | "median" | "mode" => vec![rnd_num_list(rng, 8)],
+    "stddev" => {
+      if rng.chance(1, 4) {
+        vec![rnd_num_list(rng, 8)]
+      } else {
+        vec![rnd_stddev_list(rng)]
+      }
+    }
     "all" => vec![json!({"k": "list", "items": (0..rng.below(6)).map(|_| if rng.chance(1, 6) { json!({"k": "null"}) } else { json!({"k": "bool", "b": rng.chance(2, 3)}) }).collect::<Vec<_>>()})],
     "sublist" => {
       if rng.chance(1, 2) {
@@ -207,6 +234,10 @@ pub fn check(mut ctx: Ctx, replay: Option<J>) -> ! {
     let st = tlc.run(Run::new("SelfTest_Regex", "SelfTest_Regex.cfg").timeout(600).workers(4));
     if !st.ok || st.lines.iter().any(|l| l.contains("SELFTEST-FAIL") || l.contains("is violated")) {
       tool_error(&format!("SelfTest_Regex failed: {}", st.error_text));
+    }
+    let st = tlc.run(Run::new("SelfTest_Stddev", "SelfTest_Stddev.cfg").timeout(300));
+    if !st.ok || st.lines.iter().any(|l| l.contains("SELFTEST-FAIL")) {
+      tool_error(&format!("SelfTest_Stddev failed: {}", st.error_text));
     }
     let gen = tlc.run(Run::new("Gen_C08", "Gen_C08.cfg").timeout(1200));
     if !gen.ok {
